@@ -10,14 +10,53 @@ structure St where
   /-- Map32 descriptors actually inserted (chunk index ↦ raw); the unit harness never inserts under
   layout 32, the whole-GC harness may seed this. -/
   dm32 : List (Nat × Nat) := []
+  /-- whole-GC part (`cfg layout compressed`): the regions every discontiguous space of the live plan owns,
+  as reported by hx_gc's `regions` (walked from the page resources' own heads), and the space names -/
+  regs : List Region := []
+  names : List (Nat × String) := []
 
 def showLookup : Lookup → String
   | .desc d => toString d
   | .oob => "panic:oob"
 
+/-- `name:deschex:headhex:starthex+chunks/starthex+chunks…` (or `…:contig`, or `…:-`) -/
+def parseSpace (tok : String) : Option (Nat × String × List Region) :=
+  match tok.splitOn ":" with
+  | [name, d, "contig"] => (parseHex? d).map fun d => (d, name, [])
+  | [name, d, _, lst] =>
+    match parseHex? d with
+    | none => none
+    | some d =>
+      if lst == "-" then some (d, name, []) else
+      let rs := (lst.splitOn "/").mapM fun e =>
+        match e.splitOn "+" with
+        | [a, n] => match parseHex? a, n.toNat? with
+          | some a, some n => some ({ start := a >>> logBytesInChunk, chunks := n, owner := d } : Region)
+          | _, _ => none
+        | _ => none
+      rs.map fun rs => (d, name, rs)
+  | _ => none
+
+def hex (n : Nat) : String := "0x" ++ String.ofList (Nat.toDigits 16 n)
+
 def step (l : VMLayout) (debug : Bool) (st : St) (args : List String) : St × String :=
   match args with
   | ["new"] => ({ live := true }, "ok")
+  | "lregions" :: toks =>
+    -- the model's SFT and descriptor tables after `grow_space` for every region now owned
+    match toks.mapM parseSpace with
+    | some sp => ({ st with regs := sp.flatMap (·.2.2), names := sp.map fun x => (x.1, x.2.1) }, "ok")
+    | none => (st, "bad-op")
+  | ["lprobe", a] =>
+    -- `<SFT_MAP.get_checked(a).name()> <VM_MAP.get_descriptor_for_address(a)> <is_in_mmtk_spaces(a)>`; by
+    -- `Mmtk.Map32.sft_matches_descriptor` the SFT table of a reachable state is the descriptor table
+    match num? a with
+    | some a =>
+      let t := tableOf st.regs
+      let s := sparseGetChecked t maxChunks a
+      let name := if s == 0 then "empty" else (st.names.lookup s).getD "?"
+      (st, s!"{name} {hex (map32Descriptor t maxChunks a)} {showBool (isInMmtkSpaces t maxChunks a)}")
+    | none => (st, "bad-op")
   | ["gdesc", a] =>
     -- the process-global VM_MAP of hx_unit holds no spaces
     match num? a with
